@@ -90,6 +90,14 @@ structure TextOK (s : Split) : Prop where
   /-- every body statement of `m` is in exactly one part, as the same statement value -/
   body : ∀ kw ∈ bodyKws, (s.m.stmt.all kw).Perm (s.parts.flatMap (·.stmt.all kw))
 
+/-- `P` has an include statement that resolves to `Q`. -/
+def Includes (R' : Registry) (P Q : Mod) : Prop := ∃ a ∈ P.stmt.all "include", R'.findModule true a = some Q
+
+/-- `Q` is reached from `P` through include statements. -/
+inductive IncReach (R' : Registry) : Mod → Mod → Prop
+  | refl (P : Mod) : IncReach R' P P
+  | step {P Q T : Mod} : IncReach R' P Q → Includes R' Q T → IncReach R' P T
+
 /-- What the two registries have to do with each other: `R'` is `R` with `m` replaced by the owner
 (same load number, same keys) and the submodules added under their names.  `R` itself has no
 submodules (the setting of the metamorphic runner: one module of a set without submodules is split).
@@ -118,6 +126,18 @@ structure RegsOK (s : Split) (R R' : Registry) : Prop where
   /-- the keys of goyang's merged-submodule bookkeeping (`included:includer`) do not collide -/
   sub_name_ne : ∀ sb ∈ s.subs, sb.name ≠ s.m.name
   keys_apart : ∀ a ∈ s.subs, ∀ b ∈ s.subs, s.m.name ++ ":" ++ a.name ≠ b.name ++ ":" ++ s.m.name
+  /-- (general form, nested includes) every include statement of a part resolves to a submodule of the split -/
+  inc_resolve : ∀ P ∈ s.parts, ∀ a ∈ P.stmt.all "include", ∃ sb ∈ s.subs, R'.findModule true a = some sb
+  /-- every submodule is reached from the owner through include statements -/
+  inc_cover : ∀ sb ∈ s.subs, IncReach R' s.owner sb
+  /-- no part includes itself and no two parts include each other (goyang reports exactly these as
+  circular; longer include cycles are cut silently by the merged-submodule bookkeeping) -/
+  inc_no_back : ∀ P ∈ s.parts, ∀ Q ∈ s.parts, Includes R' P Q → Q ≠ P ∧ ¬ Includes R' Q P
+  /-- the bookkeeping keys `a:b` over the names of the parts are read unambiguously (no name
+  contains a colon) -/
+  keys_inj : ∀ a ∈ s.m.name :: s.subs.map (·.name), ∀ b ∈ s.m.name :: s.subs.map (·.name),
+    ∀ c ∈ s.m.name :: s.subs.map (·.name), ∀ d ∈ s.m.name :: s.subs.map (·.name),
+    a ++ ":" ++ b = c ++ ":" ++ d → a = c ∧ b = d
 
 /-! ### visibility -/
 
